@@ -590,3 +590,55 @@ def callee_matches(t, *suffixes):
             if n == s or n.endswith('::' + s) or n.endswith(s):
                 return True
     return False
+
+
+# ------------------------------------------------------------------------ random draws feeding a value (call-site sensitive, intraprocedural)
+DRAW_CALLEES = ('random_bits', 'rand_int', 'random_number', 'random_qr', 'random_prime')
+
+
+def draw_sites(eng, fd, op, limit=400):
+    """call sites of the crate's random helpers whose result flows (through assignments, references and calls, in this body) into the operand."""
+    body = fd.body
+    seen, draws = set(), set()
+    work = []
+
+    def push_op(o):
+        if isinstance(o, dict) and o.get('k') in ('copy', 'move'):
+            work.append(o['pl']['l'])
+            for p in o['pl'].get('p', []):
+                if p['k'] == 'index':
+                    work.append(p['l'])
+
+    push_op(op)
+    while work and len(seen) < limit:
+        l = work.pop()
+        if l in seen:
+            continue
+        seen.add(l)
+        for kind, bi, x in fd.defs.get(l, []):
+            if kind == 'assign':
+                rv = x['rv']
+                for key in ('op', 'a', 'b'):
+                    push_op(rv.get(key))
+                for o in rv.get('ops', []) or []:
+                    push_op(o)
+                if rv['k'] in ('ref', 'rawptr', 'len', 'discr'):
+                    work.append(rv['pl']['l'])
+            elif kind == 'call':
+                tgt = local_target(eng, x) or ''
+                if tgt.split('::')[-1] in DRAW_CALLEES:
+                    draws.add((x['line'], tgt.split('::')[-1], bi))
+                    continue
+                for a in x['args']:
+                    push_op(a)
+        # values written through a `&mut l` handed to a call (x += .., complete_into ...) : the other arguments of that call flow in
+        for bi, t in body.calls():
+            for a in t['args']:
+                if a.get('k') in ('copy', 'move'):
+                    d = fd.defs.get(a['pl']['l'], [])
+                    if len(d) == 1 and d[0][0] == 'assign' and d[0][2]['rv']['k'] == 'ref' and d[0][2]['rv'].get('mut') and d[0][2]['rv']['pl']['l'] == l:
+                        for a2 in t['args']:
+                            push_op(a2)
+    return draws
+
+
